@@ -172,6 +172,30 @@ pub fn gen_f32_corner(r: &mut Rng) -> Inst {
     Inst { courses, parts, rooms: Some(vec![room, second]) }
 }
 
+/// An effective room size with a TINY positive fractional part (2^-10 … 2^-16, 1e-4 … 9e-4; through
+/// the offset or through the factor) and a room that is too small by exactly that fraction: the
+/// popular course must be shrunk by one. Any tolerance in the rounding ("- 1e-3") lets it through.
+pub fn gen_f32_tiny_fraction(r: &mut Rng) -> Inst {
+    let eps = [1.0f32 / 1024.0, 1.0 / 2048.0, 1.0 / 8192.0, 1.0 / 65536.0, 1e-4, 3e-4, 9e-4][r.usize(7)];
+    let via_factor = r.chance(1, 3);
+    let want = 4 + r.usize(5);
+    let k = r.usize(3);
+    let (f, off) = if via_factor { (1.0 + eps / 8.0, k as f32) } else { (1.0, k as f32 + eps) };
+    let others = 1 + r.usize(2);
+    let np = want + others;
+    let courses = vec![
+        CourseDump { index: 0, dbid: 100, name: "A".into(), num_min: r.usize(3), num_max: want + 2, instructors: vec![],
+            room_factor: f, room_offset: off, fixed_course: false, hidden_participant_names: vec![] },
+        CourseDump { index: 1, dbid: 101, name: "B".into(), num_min: 0, num_max: np, instructors: vec![],
+            room_factor: 1.0, room_offset: 0.0, fixed_course: false, hidden_participant_names: vec![] },
+    ];
+    let parts: Vec<ParticipantDump> = (0..np)
+        .map(|i| ParticipantDump { index: i, dbid: 1000 + i, name: format!("p{}", i), choices: if i < want { vec![(0, 0), (1, 1)] } else { vec![(1, 0), (0, 1)] } })
+        .collect();
+    // the room for A holds k + want places; A with all its fans needs k + want + (a bit) -> one more
+    Inst { courses, parts, rooms: Some(vec![k + want, others + 2]) }
+}
+
 /// A fixed course that nobody wants first (but many second), with a room offset, and a room list
 /// with a conflict at a room smaller than the fixed course's minimum size: the room stage must
 /// shrink the popular courses (pushing people into the fixed course), never cancel the fixed one.
